@@ -443,3 +443,57 @@ def contracts():
     c = _c09.resolve_value_container_contract("list")
     c.prop = "C08"
     return _c08_base3() + [c]
+
+
+# ---------------------------------------------------------------------------------------------
+# param.bind: every dependency of a function given as argument stays a dependency of the result
+# (the generated keyword names must not collide) — concrete probe, not a proof
+# ---------------------------------------------------------------------------------------------
+BIND_KEYS_REPLAY = '''import sys, os, itertools
+sys.path.insert(0, os.environ.get('PYVC_REPO', '/repo'))
+import param
+from param.parameterized import resolve_ref
+class S(param.Parameterized):
+    x = param.Number(default=0)
+    y = param.Number(default=0)
+class T(param.Parameterized):
+    t = param.Number(default=0, allow_refs=True)
+bad = []
+def inner_fns(a, b):
+    add = lambda u=0, v=0, arg0=0, arg1=0, x=0: u + v + arg0 + arg1 + x
+    yield 'bind(add, a.x, b.x)', param.bind(add, a.param.x, b.param.x)
+    yield 'bind(add, u=a.x, v=b.x)', param.bind(add, u=a.param.x, v=b.param.x)
+    yield 'depends(a.x, arg0=b.x)', param.depends(a.param.x, arg0=b.param.x)(lambda u, arg0=0: u + arg0)
+    yield 'depends(a.x, b.x, arg1=a.y)', param.depends(a.param.x, b.param.x, arg1=a.param.y)(lambda u, v, arg1=0: u + v + arg1)
+    yield 'depends(a.x, x=b.x)', param.depends(a.param.x, x=b.param.x)(lambda u, x=0: u + x)
+for how in ('positional', 'keyword', 'two keywords'):
+    for i in range(5):
+        a, b = S(x=1, y=100), S(x=2, y=200)
+        label, inner = list(inner_fns(a, b))[i]
+        if how == 'positional':
+            outer = param.bind(lambda s: s * 10, inner)
+        elif how == 'keyword':
+            outer = param.bind(lambda s=0: s * 10, s=inner)
+        else:
+            label2, inner2 = list(inner_fns(b, a))[i]
+            outer = param.bind(lambda s=0, s_arg=0: (s + s_arg) * 10, s=inner, s_arg=inner2)
+        want_deps = set(map(id, resolve_ref(inner)))
+        got_deps = set(map(id, resolve_ref(outer)))
+        if not want_deps <= got_deps:
+            bad.append('bind(f, <%s> by %s): %d of the %d parameters the argument depends on are not dependencies of the result'
+                       % (label, how, len(want_deps - got_deps), len(want_deps)))
+            continue
+        t = T(t=outer)
+        for src, nm, val in ((a, 'x', 5), (b, 'x', 7), (a, 'y', 11), (b, 'x', 1), (a, 'x', 2)):
+            setattr(src, nm, val)
+            want = outer()
+            if t.t != want:
+                bad.append('after %s=%r the parameter linked to bind(f, <%s> by %s) holds %r, the function gives %r'
+                           % (nm, val, label, how, t.t, want))
+                break
+if bad:
+    print('REPRODUCED: ' + bad[0]); sys.exit(1)
+print('not reproduced')
+'''
+
+PROBES = [("bind keeps every dependency of a function argument", BIND_KEYS_REPLAY)]
